@@ -149,7 +149,7 @@ META = {
             "and the loaded chunks."
         ),
         "level_note": "trusted: metadata oracle in vf/mon/storagemd.py; DataDirectory / FileSytemBackend only",
-        "technique": "round-trip runtime oracle (written vs loaded rows, boundaries) + metadata/file consistency monitor over exhaustive configuration product per random input",
+        "technique": "round-trip runtime oracle (written vs loaded rows, boundaries) + metadata/file consistency monitor over exhaustive configuration product per random input; pool saving additionally under a cooperative scheduler (seeded random / PCT order of the queued chunk writes)",
     },
     "C05": {
         "level_text": (
@@ -225,7 +225,7 @@ META = {
             "must not write."
         ),
         "level_note": "trusted: fresh-context oracle; JSON-serialisable option values only; 5-plugin graph with shared option and child plugin",
-        "technique": "history-based runtime monitoring: long-lived contexts vs fresh-context reference after every step of random operation histories; cross-process key determinism probe",
+        "technique": "history-based runtime monitoring: 2..4 long-lived contexts (derived ones beside their parents, each with its own model) vs fresh-context reference after the steps of random operation histories; cross-process key determinism probe",
     },
     "C14": {
         "level_text": (
@@ -251,7 +251,7 @@ META = {
             "(metadata oracle of C03), and the source tree byte-identical (content hash) unless replaced."
         ),
         "level_note": "trusted: metadata oracle in vf/mon/storagemd.py; rechunker driven with its default progress bar",
-        "technique": "differential runtime oracle (transformed vs source data) + metadata/file consistency monitor + source-tree hash",
+        "technique": "differential runtime oracle (transformed vs source data) + metadata/file consistency monitor + source-tree hash; thread-mode rechunker additionally under a cooperative scheduler",
     },
     "C15": {
         "level_text": (
